@@ -28,6 +28,10 @@ AddEnd(s) == /\ phase = "setup" /\ s \in cfg.loaded
 CalcMaps == /\ phase = "setup"
             /\ maps' = maps \cup ends /\ outcome' = "none"
             /\ UNCHANGED <<cfg, ends, phase, cursor, natoms, written, out>>
+(* looking at the overlap of a complete species (Alignment.write_comparative_gro) is an observation: it writes its own
+   file and changes nothing of the manager *)
+Compare(s) == /\ phase = "setup" /\ s \in ends
+              /\ UNCHANGED <<cfg, ends, maps, phase, cursor, natoms, written, out, outcome>>
 Ready == ends # {} /\ ends \subseteq maps
 (* pre-flight checks fail: an error, and no file is created *)
 ExtrapolateErr == /\ phase = "setup" /\ ~Ready
